@@ -12,11 +12,63 @@ package xsync
 //@ define cardPut(M, k) = card(M) + ite(present(M[k]), 0, 1)
 //@ define cardDel(M, k) = card(M) - ite(present(M[k]), 1, 0)
 
+// ---------------------------------------------------------------------------------------------
+// Layer A: bit-level helpers (loop-free, proved over the full 64-bit domain).  Call sites inline these helpers; the
+// lemmas below are the algebraic facts the table-layer invariants rely on.
+// ---------------------------------------------------------------------------------------------
+//@ lemma {C11,C10,C03} tophash.match-after-store: forall h: uint64, t: uint64, i: int :: 0 <= i && i < 3 ==> topHashMatch(h, storeTopHash(h, t, i), i)
+//@ lemma {C11,C03} tophash.store-frame: forall h: uint64, g: uint64, t: uint64, i: int, j: int :: 0 <= i && i < 3 && 0 <= j && j < 3 && i != j ==> topHashMatch(g, storeTopHash(h, t, i), j) == topHashMatch(g, t, j)
+//@ lemma {C11,C03} tophash.erase: forall g: uint64, t: uint64, i: int :: 0 <= i && i < 3 ==> !topHashMatch(g, eraseTopHash(t, i), i)
+//@ lemma {C11,C03} tophash.erase-frame: forall g: uint64, t: uint64, i: int, j: int :: 0 <= i && i < 3 && 0 <= j && j < 3 && i != j ==> topHashMatch(g, eraseTopHash(t, i), j) == topHashMatch(g, t, j)
+//@ lemma {C13,C14} tophash.lockbit: forall h: uint64, t: uint64, i: int :: 0 <= i && i < 3 ==> (storeTopHash(h, t, i) & 1) == (t & 1) && (eraseTopHash(t, i) & 1) == (t & 1)
+//@ lemma {C11,C03} tophash.absent-nomatch: forall g: uint64, i: int :: 0 <= i && i < 3 ==> !topHashMatch(g, 0, i) && !topHashMatch(g, 1, i)
+//@ lemma {C11,C10,C04} swar.no-false-negative: forall w: uint64, b: uint8, i: int :: 0 <= i && i < 8 && b < 128 && ((w >> (i * 8)) & 255) == u64(b) ==> ((markZeroBytes(w ^ broadcast(b)) >> (i * 8 + 7)) & 1) == 1
+//@ lemma {C11,C04} swar.setbyte: forall w: uint64, b: uint8, i: int, j: int :: 0 <= i && i < 8 && 0 <= j && j < 8 ==> ((setByte(w, b, i) >> (j * 8)) & 255) == ite(i == j, u64(b), (w >> (j * 8)) & 255)
+//@ lemma {C11,C04} swar.h2-range: forall h: uint64 :: h2(h) < 128
+//@ lemma {C11} pow2.next: forall v: uint32 :: 1 <= v && v <= 2147483648 ==> nextPowOf2(v) >= v && (nextPowOf2(v) & (nextPowOf2(v) - 1)) == 0 && nextPowOf2(v) != 0
+
+// ---------------------------------------------------------------------------------------------
+// Layer C: representation invariant of Map's hash table (quiescent states).  Ghost state, never in the compiled program:
+//   tbl[b]   table that owns bucket b (nil: none)        ridx[b]  index of b's root bucket in that table
+//   pos[b]   position of b in its chain (root = 0)       clen[r]  length of the chain starting at root bucket r
+//   tview[t] abstract contents of table t                slotb/sloti[t][k]  the slot that holds key k (witness)
+// ---------------------------------------------------------------------------------------------
+//@ ghost tbl : [Addr]Addr
+//@ ghost ridx : [Addr]uint64
+//@ ghost pos : [Addr]mathint
+//@ ghost clen : [Addr]mathint
+//@ ghost tview : [Addr][string]opt[interface{}]
+//@ ghost slotb : [Addr][string]Addr
+//@ ghost sloti : [Addr][string]int
+//@ define tab(m) = as(m.table, "*mapTable")
+//@ define nbk(t) = len(t.buckets)
+//@ define root(t, j) = addr(t.buckets[j])
+//@ define own(t, b) = tbl[b] == t
+//@ define rootOf(t, b) = root(t, ridx[b])
+//@ define pow2(n) = n > 0 && (n & (n - 1)) == 0
+//@ define idxOf(t, k) = u64(nbk(t) - 1) & hashString(k, t.seed)
+//@ define tblShape(t) = t != nil && wfslice(t.buckets) && pow2(nbk(t)) && wfslice(t.size) && pow2(len(t.size))
+//@ define chains(t) = forall b: *bucketPadded :: own(t, b) ==> b != nil && ridx[b] < u64(nbk(t)) && own(t, rootOf(t, b)) && 0 <= pos[b] && pos[b] < clen[rootOf(t, b)] && ((pos[b] == 0) == (b == rootOf(t, b))) && (b.next != nil ==> own(t, b.next) && ridx[b.next] == ridx[b] && pos[b.next] == pos[b] + 1) && (b.next == nil ==> pos[b] == clen[rootOf(t, b)] - 1)
+//@ define roots(t) = forall j: uint64 :: j < u64(nbk(t)) ==> own(t, root(t, j)) && ridx[root(t, j)] == j && pos[root(t, j)] == 0
+//@ define chainsInj(t) = forall b1: *bucketPadded, b2: *bucketPadded :: own(t, b1) && own(t, b2) && ridx[b1] == ridx[b2] && pos[b1] == pos[b2] ==> b1 == b2
+//@ define present3(w, i) = ((w >> (u64(i) + 1)) & 1) == 1
+//@ define keyAt(b, i) = load(string, b.keys[i])
+//@ define valAt(b, i) = load("interface{}", b.values[i])
+//@ define slots(t) = forall b: *bucketPadded, i: int :: own(t, b) && 0 <= i && i < 3 ==> ((b.keys[i] == nil) == (b.values[i] == nil)) && ((b.keys[i] != nil) == present3(b.topHashMutex, i)) && (b.keys[i] != nil ==> topHashMatch(hashString(keyAt(b, i), t.seed), b.topHashMutex, i) && idxOf(t, keyAt(b, i)) == ridx[b] && tview[t][keyAt(b, i)] == some(valAt(b, i)) && slotb[t][keyAt(b, i)] == b && sloti[t][keyAt(b, i)] == i)
+//@ define viewSlots(t) = forall k: string :: present(tview[t][k]) ==> own(t, slotb[t][k]) && 0 <= sloti[t][k] && sloti[t][k] < 3 && as(slotb[t][k], "*bucketPadded").keys[sloti[t][k]] != nil && keyAt(as(slotb[t][k], "*bucketPadded"), sloti[t][k]) == k
+//@ define tableInv(t) = tblShape(t) && chains(t) && roots(t) && chainsInj(t) && slots(t) && viewSlots(t)
+//@ define mapRI(m) = m != nil && tableInv(tab(m)) && view(m) == tview[tab(m)]
+
 //@ -- twin-begin Map
 //@ func (*Map).Load
-//@   trusted interface contract (builtin-map semantics); discharged by the table-layer proofs when those are enabled
-//@   requires m != nil && mapInv(m)
+//@   requires mapInv(m) && mapRI(m)
 //@   let o = old(view(m))[key]
+//@   loop for.body: invariant {C11,C03} walk: own(tab(m), b) && ridx[b] == idxOf(tab(m), key) && (present(o) ==> pos[slotb[tab(m)][key]] >= pos[b])
+//@   loop for.body: decreases clen[rootOf(tab(m), b)] - pos[b]
+//@   loop for.loop: invariant {C11,C03} scanned: 0 <= i && i <= 3 && (forall j: int :: 0 <= j && j < i ==> !(b.keys[j] != nil && keyAt(b, j) == key))
+//@   loop for.loop: invariant outer: own(tab(m), b) && ridx[b] == idxOf(tab(m), key) && (present(o) ==> pos[slotb[tab(m)][key]] >= pos[b])
+//@   loop for.loop: decreases 3 - i
+//@   loop atomic_snapshot: unroll 1
 //@   ensures {C11,C03} post.ok: ok == present(o)
 //@   ensures {C11,C03} post.value: value == valOr0(o)
 
